@@ -35,6 +35,8 @@ struct Opts {
     budget: Option<Duration>,
     alt_bin: Option<PathBuf>,
     alt_repo: Option<String>,
+    ver_bin: Option<PathBuf>,
+    ver_repo: Option<String>,
 }
 
 fn parse_opts() -> Opts {
@@ -53,6 +55,8 @@ fn parse_opts() -> Opts {
         budget: std::env::var("VERIF_BUDGET_S").ok().and_then(|s| s.parse().ok()).map(Duration::from_secs),
         alt_bin: std::env::var("VERIF_ALT_BIN").ok().filter(|s| !s.is_empty()).map(PathBuf::from),
         alt_repo: std::env::var("VERIF_ALT_REPO").ok().filter(|s| !s.is_empty()),
+        ver_bin: std::env::var("VERIF_VER_BIN").ok().filter(|s| !s.is_empty()).map(PathBuf::from),
+        ver_repo: std::env::var("VERIF_VER_REPO").ok().filter(|s| !s.is_empty()),
     };
     let mut i = 1;
     while i < args.len() {
@@ -226,6 +230,7 @@ fn setup(o: &Opts, scratch: &Path, only_complete_reference: bool) -> Result<Ctx,
         expected_docs,
         repo: o.repo.clone(),
         alt: false,
+        ver: false,
         rand: 1,
     };
     let out = launcher.simnode(&gold, &scratch.join("gold"), "gold", &session, 0);
@@ -269,7 +274,7 @@ fn setup(o: &Opts, scratch: &Path, only_complete_reference: bool) -> Result<Ctx,
             let alauncher = Launcher { bin_dir: bin.clone(), allowed: allowed_cpus(), child_timeout: Duration::from_secs(180) };
             let agold = Paths::new(scratch.join("alt-gold").join("xdg"));
             dirstate::wipe(&agold).unwrap_or_else(|e| harness_fail(&e.to_string()));
-            let asession = Session { cpus: 1, faults: vec![], ops: vec![Op::Open { slot: 0, mode: Mode::Disk, plan: Plan::default() }], expected_docs: ashipped.docs(), repo: repo.clone(), alt: true, rand: 1 };
+            let asession = Session { cpus: 1, faults: vec![], ops: vec![Op::Open { slot: 0, mode: Mode::Disk, plan: Plan::default() }], expected_docs: ashipped.docs(), repo: repo.clone(), alt: true, ver: false, rand: 1 };
             let aout = alauncher.simnode(&agold, &scratch.join("alt-gold"), "gold", &asession, 0);
             let ainfo = dirstate::inspect(&agold, &ashipped);
             let (av, ah) = match &ainfo.meta {
@@ -293,9 +298,41 @@ fn setup(o: &Opts, scratch: &Path, only_complete_reference: bool) -> Result<Ctx,
             }
         }
     }
+    let mut ver = None;
+    if let (Some(bin), Some(repo)) = (&o.ver_bin, &o.ver_repo) {
+        if bin.join("simnode").is_file() {
+            let ashipped = shipped::load(repo).unwrap_or_else(|e| harness_fail(&format!("other-version data: {e}")));
+            let alauncher = Launcher { bin_dir: bin.clone(), allowed: allowed_cpus(), child_timeout: Duration::from_secs(180) };
+            let agold = Paths::new(scratch.join("ver-gold").join("xdg"));
+            dirstate::wipe(&agold).unwrap_or_else(|e| harness_fail(&e.to_string()));
+            let asession = Session { cpus: 1, faults: vec![], ops: vec![Op::Open { slot: 0, mode: Mode::Disk, plan: Plan::default() }], expected_docs: ashipped.docs(), repo: repo.clone(), alt: false, ver: true, rand: 1 };
+            let aout = alauncher.simnode(&agold, &scratch.join("ver-gold"), "gold", &asession, 0);
+            let ainfo = dirstate::inspect(&agold, &ashipped);
+            let (av, ah) = match &ainfo.meta {
+                dirstate::MetaInfo::Parsed { version: Some(v), hash: Some(h) } => (v.clone(), h.clone()),
+                _ => (String::new(), String::new()),
+            };
+            if aout.harness_error().is_none() && aout.exit == (Exit::Code { code: 0 }) {
+                let agold_index = scratch.join("ver-gold-index");
+                dirstate::copy_dir(&agold.index(), &agold_index).unwrap_or_else(|e| harness_fail(&e.to_string()));
+                let areference = Reference {
+                    meta_text: ainfo.meta_text.clone().unwrap_or_default(),
+                    version: av,
+                    hash: ah,
+                    gold_index: agold_index,
+                    foreign_index: reference.foreign_index.clone(),
+                    foreign_schema_index: reference.foreign_schema_index.clone(),
+                };
+                ver = Some(Box::new(Alt { launcher: alauncher, repo: repo.clone(), shipped: ashipped, reference: areference }));
+            } else {
+                println!("simctl: note: the other-version build did not complete a clean start; other-version histories are skipped");
+            }
+        }
+    }
     Ok(Ctx {
         caps_strace: strace_usable(),
         alt,
+        ver,
         launcher,
         repo: o.repo.clone(),
         shipped,
@@ -392,15 +429,15 @@ fn absorb(st: &mut Stats, ctx: &Ctx, idx: usize, h: &History, trace: &Trace, vs:
     let mut nontrivial = false;
     for (i, s) in h.steps.iter().enumerate() {
         let Some(so) = trace.steps.get(i) else { continue };
-        st.dir_classes.insert(so.dir.class(ctx.side(so.alt).1));
+        st.dir_classes.insert(so.dir.class(ctx.side_b(so.build).1));
         match s {
             Step::Fabricate { state } => {
-                outcome.push(json!({"step": i, "fabricated": so.dir.class(ctx.side(so.alt).1)}));
+                outcome.push(json!({"step": i, "fabricated": so.dir.class(ctx.side_b(so.build).1)}));
                 if state.data_dir {
                     nontrivial = nontrivial || h.property == "C15";
                 }
             }
-            Step::Damage { .. } => outcome.push(json!({"step": i, "damaged_to": so.dir.class(ctx.side(so.alt).1)})),
+            Step::Damage { .. } => outcome.push(json!({"step": i, "damaged_to": so.dir.class(ctx.side_b(so.build).1)})),
             Step::Disk { free_pages, free_inodes } => outcome.push(json!({"step": i, "disk_free_pages": free_pages, "disk_free_inodes": free_inodes})),
             Step::Start { session } => {
                 st.starts += 1;
@@ -422,11 +459,11 @@ fn absorb(st: &mut Stats, ctx: &Ctx, idx: usize, h: &History, trace: &Trace, vs:
                     fired += 1;
                     *st.faults_fired.entry(kind.clone()).or_default() += 1;
                     st.fault_sites_fired.insert(format!("{kind}@{point}"));
-                    let prior = if i == 0 { "meta[absent] index[absent]".to_string() } else { trace.steps[i - 1].dir.class(ctx.side(trace.steps[i - 1].alt).1) };
+                    let prior = if i == 0 { "meta[absent] index[absent]".to_string() } else { trace.steps[i - 1].dir.class(ctx.side_b(trace.steps[i - 1].build).1) };
                     st.cells_fired.insert(format!("{prior} x {kind}@{point}"));
                 } else if configured > 0 {
                     st.faults_not_reached += 1;
-                    let prior = if i == 0 { "meta[absent] index[absent]".to_string() } else { trace.steps[i - 1].dir.class(ctx.side(trace.steps[i - 1].alt).1) };
+                    let prior = if i == 0 { "meta[absent] index[absent]".to_string() } else { trace.steps[i - 1].dir.class(ctx.side_b(trace.steps[i - 1].build).1) };
                     for f in &session.faults {
                         if let Fault::Kill { point, .. } | Fault::Fail { point, .. } = f {
                             st.cells_unreachable.insert(format!("{prior} x {point}"));
@@ -520,7 +557,7 @@ fn absorb(st: &mut Stats, ctx: &Ctx, idx: usize, h: &History, trace: &Trace, vs:
                         _ => {}
                     }
                 }
-                outcome.push(json!({"step": i, "start": if label.is_empty() { "undisturbed".to_string() } else { label }, "fired": c.fault_fired().map(|f| format!("{}@{}#{}", f.0, f.1, f.2)), "exit": c.exit, "directory_after": so.dir.class(ctx.side(so.alt).1)}));
+                outcome.push(json!({"step": i, "start": if label.is_empty() { "undisturbed".to_string() } else { label }, "fired": c.fault_fired().map(|f| format!("{}@{}#{}", f.0, f.1, f.2)), "exit": c.exit, "directory_after": so.dir.class(ctx.side_b(so.build).1)}));
             }
             Step::Cli { query, env, .. } => {
                 st.cli_runs += 1;
@@ -570,7 +607,7 @@ fn absorb(st: &mut Stats, ctx: &Ctx, idx: usize, h: &History, trace: &Trace, vs:
                             *st.probes.entry("cli-printed-a-truncated-decimal".into()).or_default() += 1;
                         }
                     }
-                    outcome.push(json!({"step": i, "any": query, "exit": c.exit, "stdout": c.stdout.chars().take(160).collect::<String>(), "directory_after": so.dir.class(ctx.side(so.alt).1)}));
+                    outcome.push(json!({"step": i, "any": query, "exit": c.exit, "stdout": c.stdout.chars().take(160).collect::<String>(), "directory_after": so.dir.class(ctx.side_b(so.build).1)}));
                 }
             }
         }
@@ -783,7 +820,7 @@ fn cmd_run(o: &Opts) -> i32 {
                     property: "C15".into(),
                     seed: 0,
                     label: "clean first start".into(),
-                    steps: vec![Step::Start { session: Session { cpus: 1, faults: vec![], ops: vec![Op::Open { slot: 0, mode: Mode::Disk, plan: Plan::default() }], expected_docs: 0, repo: String::new(), alt: false, rand: 0 } }],
+                    steps: vec![Step::Start { session: Session { cpus: 1, faults: vec![], ops: vec![Op::Open { slot: 0, mode: Mode::Disk, plan: Plan::default() }], expected_docs: 0, repo: String::new(), alt: false, ver: false, rand: 0 } }],
                 };
                 let v = Violation { property: "C15".into(), clause: "C15.clean-start".into(), step: 0, detail: why.clone(), focus: vec![], signature: "C15.clean-start".into() };
                 let path = write_replay(o, &h, &v, json!({"note": "reference start failed; not minimised"}));
@@ -1073,7 +1110,45 @@ fn cmd_run(o: &Opts) -> i32 {
             n_two = two.len();
             collect(&mut st, &mut found, &two);
         }
-        extra = json!({"long_life_histories": n_soak, "mixed_fault_kind_histories": n_mixed, "full_disk_histories": n_disk, "full_disk": if mount_ok { "the data directory on a tmpfs of its own whose free pages (0..=44) and free inodes (0..=18) are swept; ENOSPC comes from the kernel" } else { "skipped: this process may not mount a tmpfs" }, "two_build_histories": n_two, "two_build": two_note, "syscall_level_histories": n_sys, "syscall_injector": if strace_ok { "strace -f -e inject=<call>:signal=SIGKILL|error=<errno>:when=K around the simnode child" } else { "skipped: strace not available" },
+        // phase 5b: the same code and data built as another version with another tokenizer
+        // configuration ("written by another version" for real): the two versions take turns on one
+        // directory, the later one interrupted at every hook point it reaches
+        let mut n_ver = 0;
+        let mut ver_note = "skipped: no other-version build was provided (./check C15 thorough builds one)".to_string();
+        if let Some(v) = &ctx.ver {
+            ver_note = format!("other-version build: version {} (this tree: {}), hash {} this tree's, index built with another n-gram range", v.reference.version, ctx.reference.version, if v.reference.hash == ctx.reference.hash { "EQUALS" } else { "differs from" });
+            let mut hs = Vec::new();
+            let sess = |ver: bool, faults: Vec<Fault>, mem_first: bool| {
+                let mut s = gen::c15_session_ordered(&ctx, faults, subset.clone(), mem_first);
+                s.ver = ver;
+                Step::Start { session: s }
+            };
+            let mk = |label: String, steps: Vec<Step>, n: usize| History { property: "C15".into(), seed: derive(o.seed, "C15-ver", n as u64), label, steps };
+            for first_ver in [true, false] {
+                let (a, b) = if first_ver { ("other version", "this version") } else { ("this version", "other version") };
+                hs.push(mk(format!("{a} then {b}"), vec![sess(first_ver, vec![], false), sess(!first_ver, vec![], false), sess(!first_ver, vec![], true)], hs.len()));
+                hs.push(mk(format!("{a}, {b}, {a} again"), vec![sess(first_ver, vec![], false), sess(!first_ver, vec![], false), sess(first_ver, vec![], false), sess(first_ver, vec![], false)], hs.len()));
+                let pts: Vec<(String, usize)> = reached.iter().find(|r| r.iter().any(|(p, _)| p == "rebuild.before_commit")).cloned().unwrap_or_default();
+                for (p, count) in &pts {
+                    for k in gen::k_samples(&ctx, p, *count, false) {
+                        for flavour in 0..2 {
+                            if quick && (flavour == 1 || k > 0) {
+                                continue;
+                            }
+                            let f = if flavour == 0 { Fault::Kill { point: p.clone(), k } } else { Fault::Fail { point: p.clone(), k, interrupted: false } };
+                            let lab = gen::fault_label(&f);
+                            hs.push(mk(format!("{a}, then {b} with {lab}, then {b}"), vec![sess(first_ver, vec![], false), sess(!first_ver, vec![f.clone()], false), sess(!first_ver, vec![], hs.len() % 2 == 1), sess(!first_ver, vec![], false)], hs.len()));
+                            if flavour == 0 {
+                                hs.push(mk(format!("{a}, then {b} with {lab}, then back to {a}"), vec![sess(first_ver, vec![], false), sess(!first_ver, vec![f], false), sess(first_ver, vec![], false), sess(!first_ver, vec![], false)], hs.len()));
+                            }
+                        }
+                    }
+                }
+            }
+            n_ver = hs.len();
+            collect(&mut st, &mut found, &hs);
+        }
+        extra = json!({"other_version_histories": n_ver, "other_version": ver_note, "long_life_histories": n_soak, "mixed_fault_kind_histories": n_mixed, "full_disk_histories": n_disk, "full_disk": if mount_ok { "the data directory on a tmpfs of its own whose free pages (0..=44) and free inodes (0..=18) are swept; ENOSPC comes from the kernel" } else { "skipped: this process may not mount a tmpfs" }, "two_build_histories": n_two, "two_build": two_note, "syscall_level_histories": n_sys, "syscall_injector": if strace_ok { "strace -f -e inject=<call>:signal=SIGKILL|error=<errno>:when=K around the simnode child" } else { "skipped: strace not available" },
             "listed_states": states.len(), "undisturbed_state_probes": probes.len(), "state_x_crash_point_cells": n_cells, "seeded_deeper_histories": n_random,
             "exhaustive_over": "every listed state class x every hook point its recovery reaches x kill and fail (all sampled k per multi-hit point); other torn lengths / garbage kinds with a seeded sample of sites"});
     } else {
@@ -1293,7 +1368,7 @@ fn cmd_replay(o: &Opts) -> i32 {
             Step::Cli { query, .. } => format!("any {query:?} -> {:?}", so.child.as_ref().map(|c| c.exit.clone())),
             Step::Disk { free_pages, free_inodes } => format!("data file system now has room for {free_pages:?} more pages, {free_inodes:?} more inodes"),
         };
-        println!("step {i}: {what}; directory now {}", so.dir.class(ctx.side(so.alt).1));
+        println!("step {i}: {what}; directory now {}", so.dir.class(ctx.side_b(so.build).1));
     }
     let same: Vec<&Violation> = vs.iter().filter(|x| clause.is_empty() || x.clause == clause).collect();
     if let Some(x) = same.first() {
